@@ -2,8 +2,13 @@
 (* Code -> spec direction for C16.  Histories executed on real DepGraph objects
    are recorded as JSON: for every operation its arguments, whether it raised,
    the answer of a query, and the projection of EVERY live graph afterwards
-   (nodes(), dependencies(n), dependees(n), iteration, len, plus the private
-   layout _nodes._seq / _nodes._index / _edges).  One TLC step consumes one
+   (nodes(), dependencies(n), dependees(n), iteration, len, plus -- when the
+   harness could read it: field `lay` -- the private layout _nodes._seq /
+   _nodes._index / _edges, which is looked at for the drift kind "impl" only).
+   The operation "rebuild" replaces the object in slot s by a graph built anew
+   from what the old one reports, through another constructor / spelling (its
+   name travels in x): the same mathematical graph, so DepGraph!Apply leaves
+   the state as it is and everything that follows is judged as usual.  One TLC step consumes one
    recorded operation: the abstract operation of DepGraph.tla is applied to the
    previous recorded state and compared with the recorded one.  The verdict is
    total: every mismatch is collected as <<trace id, step, kind, expected>>.
@@ -93,7 +98,7 @@ Kinds(c, r, pre) ==
        \cup (IF \E s \in got.live : ~ViewsOK(r.post[s]) THEN {"views"} ELSE {})
        \cup (IF ~QueryOK(r, pre) THEN {"query"} ELSE {})
        \cup (IF r.raised /\ ~MayRaise(r, pre) THEN {"raise"} ELSE {})
-       \cup (IF \E s \in got.live : ~I!WF(Layout(r.post[s])) \/ I!AbsGraph(Layout(r.post[s])) # got.gr[s]
+       \cup (IF \E s \in got.live : r.post[s].lay /\ (~I!WF(Layout(r.post[s])) \/ I!AbsGraph(Layout(r.post[s])) # got.gr[s])
              THEN {"impl"} ELSE {})
 
 Expected(c, r, pre) == IF InDomain(r, pre) THEN A!Apply(pre.gr, pre.live, r, ContOf(c.content)).gr[A!Target(r)] ELSE A!Empty
